@@ -8,6 +8,7 @@ import (
 	"math/rand/v2"
 	"reflect"
 	"strings"
+	"time"
 
 	"github.com/creachadair/jrpc2"
 	"github.com/creachadair/jrpc2/handler"
@@ -60,7 +61,26 @@ var (
 	c15strictType = reflect.TypeOf((*interface{ DisallowUnknownFields() })(nil)).Elem()
 	c15ctxToken   = &c15tok{k: -1}
 	c15ctx        = context.WithValue(context.Background(), c15ctxKey{}, c15ctxToken)
+	c15ctxs       = c15contexts()
 )
+
+// c15contexts returns the contexts handlers are invoked with: live, already
+// cancelled, and past its deadline (a request cancelled or expired while queued
+// reaches its handler like that). What the adapter owes the function does not
+// depend on the state of the context: that is the function's business.
+func c15contexts() [3]context.Context {
+	cancelled, cancel := context.WithCancel(c15ctx)
+	cancel()
+	expired, cancel2 := context.WithDeadline(c15ctx, time.Unix(1, 0))
+	_ = cancel2
+	return [3]context.Context{c15ctx, cancelled, expired}
+}
+
+// c15pickCtx chooses one of them as a function of the evaluation.
+func c15pickCtx(k int, params string) context.Context {
+	n := len(c15ctxs)
+	return c15ctxs[((k+len(params))%n+n)%n]
+}
 
 // c15rec is what the function under test captured and what it will return.
 type c15rec struct {
@@ -395,8 +415,12 @@ func c15eval(c *vt.Ctx, s *c15sig, o c15opt, h jrpc2.Handler, params string, w c
 			ok = false
 		}
 	}()
-	res, err := h(c15ctx, req)
+	ctx := c15pickCtx(k, params)
+	res, err := h(ctx, req)
 	c.Eval(1)
+	if ctx.Err() != nil {
+		c.Count("invocations_with_ended_context", 1)
+	}
 
 	rec := s.rec
 	if rec.calls > 1 {
